@@ -9,6 +9,54 @@ TB = ("Trusted: Lean 4.33 kernel; axioms propext/Classical.choice/Quot.sound onl
       "(generators, canonicalisation, oracle). The tie model<->code is regenerated facts + behavioural correspondence (a search).")
 
 CHECKS = {
+ "C06": dict(
+  text="Lean theorems about pkg/database operations decomposed into the atomic steps the code performs (write: precommit with the "
+       "preconditions evaluated inside the s.mutex critical section after WaitForIndexingUpto(last precommitted) ; batch commit ; wait "
+       "indexed. read: c := committed ; wait idxTs >= c ; one observation of the index at any ts in [c, idxTs]; Get through a reference: two "
+       "observations; index compaction: the index is reopened from an older dump while the WaitForIndexingUpto watcher keeps its value), the "
+       "model records call/return step numbers itself. For EVERY schedule in which no index compaction completes: precondition_iff (applied with id n <=> "
+       "entry n of the log and all preconditions hold on LogView(n-1); rejected => they fail on the version observed), "
+       "read_sees_completed_writes, linearizable = (R1) results are those of the sequential KV object at the operation's version, (R2) "
+       "versions respect real-time order, (LP) the explicit linearization points lie inside the call intervals. Witnesses of the negation: ref_get_torn (Get through a "
+       "re-pointed reference), compaction_breaks_read_after_write and compaction_breaks_conditional_write (a completed CompactIndex throws the "
+       "index back: reads miss completed writes, a conditional write is applied although its precondition is false) — all three reproduced "
+       "on the real database. "
+       "Tie: real database.NewDB, 3..6 goroutines issuing Set / multi-key Set / ExecAll / Delete / SetReference / ZAdd / Get (SinceTx, AtTx, "
+       "AtRevision) / GetAll / Scan / ZScan / History / Count and conditional writes with flush/compaction running, logical call/return "
+       "timestamps; writes (with preconditions, in id order) and reads (at the version assigned by the oracle) are replayed through the Lean "
+       "driver. Oracle (model independent): exact linearizability check using the returned tx ids (version windows + greedy monotone "
+       "assignment), conditional-write rule, a WGL search without ids on the small histories, seeded non-linearizable histories as self-test.",
+  note=TB + " Modelled rather than verified: queries are evaluated on one index view (ZScan's two snapshots agree because ZAdd/ExecAll hold the "
+       "exclusive db mutex), bound references to future txs answer not-found, Delete is checked by the oracle only (MVCC tx, C05), NoWait "
+       "variants are outside the claim; the last order-theoretic step from (R1)+(R2) to an explicit total order is not formalised. Five known-finding signatures (two root causes).",
+  technique="Lean 4 proof (invariant over all schedules with explicit linearization points) + recorded concurrent histories checked exactly against a sequential KV model",
+  design="7/C06"),
+ "C05": dict(
+  text="Lean theorems about a model that mirrors embedded/store OngoingTx (lazy per-index snapshots in acquisition order, own writes, "
+       "mvccReadSet recording incl. ongoingTxKeyReader's per-row records, Reset without clearing `skipped`) and checkPreconditions / precommit "
+       "branch by branch (early `return nil` when Ts() > LastPrecommittedTxID, expected gets / prefix gets / reader re-execution with the "
+       "held-row register / prefix fingerprints), for an explicit, universally quantified schedule of atomic steps (API call of tx i with an "
+       "arbitrarily stale snapshot choice, commit critical section, write-only commit, indexer progress). Proved for EVERY schedule: "
+       "validation_sound_get/pget/scan/fp (validation ok => the read re-executed on LogView(last) + own writes returns the recorded result), "
+       "serializable_partial (every committed tx returned, call by call, what its program returns alone on LogView(id-1)) under three decidable "
+       "side conditions, serializable_default + default_snapshots_monotone (with default TxOptions one of them always holds), "
+       "aborted_no_trace(+_step), closed_tx_inert, read_your_own_writes(+_set,+_scan), atomic_visibility. The full serializability statement is "
+       "FALSE for the code as it is: three witness theorems (serializable_fails_later_snapshot_unvalidated = DESIGN K8 confirmed, "
+       "serializable_fails_scan_own_write_tail, serializable_fails_prefix_get_own_write), each reproduced on the real store. "
+       "Tie: real store, 1..2 indexes, 4..12 keys, 2..8 transaction programs per case in three modes (deterministic phantom/stale templates "
+       "ordered through channels, seeded random interleavings with deterministic stale snapshots via SnapshotMustIncludeTxID + snapshot-root "
+       "refresh, free-running goroutines with write-only committers, snapshot readers and MaxBulkSize 1); the observed scheduling facts "
+       "(commit ids, snapshot ts per index read from tx.snapshots, SnapshotMustIncludeTxID values, conflict windows) are replayed through the "
+       "Lean driver which must reproduce every read result and every commit verdict; `c05 solo` ties the Lean serial reference to the Go oracle. "
+       "Oracle (model independent): serial replay in tx-id order on a Go map, final index content = replay of committed txs, concurrent "
+       "snapshots show all or none of each tx and exactly a prefix view.",
+  note=TB + " Modelled rather than verified: the index as a multi-version map over a fixed sorted key universe (C10/C04 own the B-tree; every "
+       "read is replayed), sha256 prefix fingerprints idealised as injective, interleavings inside the critical sections, expiry / "
+       "NonIndexable / transient entries / ReadBetween / mandatoryMVCCUpToTxID / MVCC read-set limit (not exercised), atomic_visibility is by "
+       "construction in the model (the harness probes it on the real index). MaxBulkSize is forced to 1: with larger bulks the indexer "
+       "key-aliasing defect F1 (C04) corrupts index keys and surfaces here as partial-tx / left-trace failures. Three known findings.",
+  technique="Lean 4 proof (simulation argument over all schedules: per-call validation soundness lifted by an invariant) + schedule-recording replay against the real store",
+  design="7/C05"),
  "C13": dict(
   text="Lean theorems about `step`/`run`, a mirror of SQLTx (one store transaction, counters, savepoints AS THE CODE DOES THEM: counters only, map by name, ROLLBACK TO "
        "deletes the named savepoint) and Engine.execPreparedStmts (a statement error cancels the transaction), over C12's `exec`: commit_all_or_nothing (a program without "
@@ -78,13 +126,13 @@ CHECKS = {
   technique="Lean 4 proof (fold invariants over the two walks, filter characterisation of the discard loop, pigeonhole for the early exit of the back walk; decide for the witnesses) + differential correspondence on real stores",
   design="7/C14"),
  "C07": dict(
-  text="Lean theorems over models that mirror the replication code (wire format of ExportTx/ReplicateTx with Go panics explicit; the replica store: "
+  text="Lean theorems over models that mirror the replication code (wire format of ExportTx/ReplicateTx as repaired in /repo - every length field behind its own check, proved panic-free for every byte string; the replica store: "
        "ReplicateTx -> precommit with a supplied header, every check in the code's order -> performPrecommit, sync/mayCommit, DiscardPrecommittedTxsSince, "
        "AllowCommitUpto at store and database level, close/reopen re-loading the tx log; the ack protocol of synchronous replication), abstract hash, "
        "conclusions Good ∨ explicit collision: export_parse_roundtrip (values, empty values, by-digest form, v0/v1, any metadata; trailer optional); "
        "replica_prefix_partial (ANY schedule of deliveries drawn from a genuine primary history — out of order, duplicates, retries, with/without skipIntegrityCheck, "
        "interleaved with syncs, discards, allowances, restarts — leaves the replica with, position by position, the primary's first transactions: header, Alh, entries — under the hypothesis that the pooled Tx holds a zero BlRoot whenever a BlTxID=0 tx is expected; the unconditional statement is refuted by stale_blroot_breaks_rereplication) "
-       "and replica_accepts_next (completeness of the checks); replica_holds_wellformed_chain + replica_agrees_upto_matching_alh (ARBITRARY delivered bytes: the chain is always well formed, and a matching Alh at position n means the primary's headers, Alhs and entries up to n — the guarantee behind db.AllowCommitUpto(txID, alh)); replica_rejects_nonextending / _unparsable / replica_rejection_keeps_state (rejected without effect); "
+       "and replica_accepts_next (completeness of the checks); replica_holds_wellformed_chain + replica_agrees_upto_matching_alh (ARBITRARY delivered bytes: the chain is always well formed, and a matching Alh at position n means the primary's headers, Alhs and entries up to n — the guarantee behind db.AllowCommitUpto(txID, alh)); replica_rejects_nonextending / _unparsable / replica_rejection_keeps_state (rejected without effect); replicateTx_parser_never_panics and the former panic inputs restated as rejected without effect (replica_rejects_malformed_trailer: trailer of one byte / of length 0; replica_rejects_cut_value_length: export cut inside vLen after kv-metadata); "
        "replica_rejects_altered_entries + entries_hash_binds_entries + value_hash_binds_value (integrity check on); accumulated_hash_binds_header; "
        "sync replication over all interleavings: primary_commit_needs_acks (committed ≥ n ⇒ syncAcks distinct replicas informed a durable precommit ≥ n), "
        "replica_commit_after_primary, primary_commit_within_allowance, reports_bounded. The unqualified sentence 'an altered export is rejected without effect' is FALSE for "
@@ -97,11 +145,11 @@ CHECKS = {
        "is blocked in Set, ExportTxByID answers and the primary's commit point compared with the ack model, replica 0's store followed by the byte-level model. "
        "Oracle (model-independent): replica vs primary tx by tx (ExportTx bytes, headers, Alh, ReadTx entries, values, Get after indexing, DualProofs of the replica verified "
        "against the primary's states), rejected ⇒ state digest unchanged, accepted altered ⇒ classified, Set returns only after syncAcks replicas informed, replica committed ≤ primary committed, "
-       "a copy of a Synced replica's directory re-opens with the reported precommit.",
+       "a copy of a Synced replica's directory re-opens with the reported precommit. The transient back-pressure answer ErrMaxConcurrencyLimitExceeded (Tx holder pool empty, timing dependent) is repeated by the harness and only counted: it is neither compared with the model nor a rejection.",
   note=TB + " Modelled rather than verified: aht.RootAt is replaced by its specification mth (C08 aht_root); one ReplicateTx call is one atomic step (a call that must wait for tx ID-1 is the "
        "outcome 'blocked'; concurrent deliveries are linearised by the harness); entriesByKey is keyed by key (Go: sha256(key)); the pooled Tx's BlRoot is modelled for sequential use of the pool (proof/read calls on the replica between deliveries are not tracked); stale bytes after the re-loaded chain are assumed not to parse as a chaining record; the ack protocol "
        "is modelled on ids only (Alh comparisons of ExportTxByID are in the byte model / oracle); gRPC streaming and the TxReplicator goroutines (pkg/replication) are not modelled: the harness plays "
-       "fetchNextTx by hand. Known findings (9 signatures, all confirmed on the real code) in known_findings.json.",
+       "fetchNextTx by hand. Known findings (8 signatures, all confirmed on the real code) in known_findings.json; the ReplicateTx framing panics (F3) are repaired in /repo (93a231d) and their signature stays armed.",
   technique="Lean 4 proof (invariants over operation sequences and interleavings, collision-explicit hash binding) + differential correspondence on real stores/databases with schedule and alteration streams",
   design="7/C07"),
  "C02": dict(
@@ -173,12 +221,17 @@ CHECKS = {
        "EVERY crash image (per log any prefix of the un-fsynced cells, torn next cell, stale tail): recover_total (OpenWith never fails), recover_acked_prefix "
        "(acked <= recovered committed, acked records identical), recover_extends(+_prefix) (nothing invented), recover_chain (dense ids, PrevAlh chain), "
        "recover_idempotent (crash during/after recovery), acked_values_durable_partial (one epoch); witnesses swapped_order_loses_acked, "
-       "early_ack_loses_acked (necessity of the write ordering) and autosync_recovers_tx_without_values (finding K7 as a theorem about the code's protocol). "
+       "early_ack_loses_acked (necessity of the write ordering), unlocked_vlog_sync_loses_acked_values (necessity of fsyncing the value logs INSIDE the commit lock: "
+       "a tx record appended between the value-log fsync and the tx-log fsync of one sync() is acknowledged without durable values) and autosync_recovers_tx_without_values (finding K7 as a theorem about the code's protocol). "
        "Tie: the real store runs on a crash-simulating Appendable (crashfs, differentially validated against the real multiapp every run); the recorded "
        "storage-op trace is replayed through the model and the model must predict the real store.Open's (committedTxID, precommittedTxID) / error class on "
        "every enumerated crash image. Independent oracle on the reopened real store: Open succeeds, acked txs present and byte-identical, chain + BlRoot "
        "recomputed, nothing invented, DualProof(acked -> recovered) verifies, Get vs log after WaitForIndexingUpto, fresh commit; plus second crashes during "
-       "recovery and after recovery+commit, and deterministic attack templates.",
+       "recovery and after recovery+commit, and deterministic attack templates. Concurrent committers are interleaved with the durability round DETERMINISTICALLY through "
+       "the storage layer (a crashfs hook starts late committers before the Flush / after the Sync of every log of the round, MaxIOConcurrency 1..3); the crash point right "
+       "after every acknowledgement is always evaluated (values of every acked tx read back); a crash-independent ordering oracle on the trace checks that the tx record and "
+       "every referenced value range are fsynced when a commit-log entry becomes durable / a commit is acknowledged; the trace is fed to the model with the round's begin at "
+       "its real position, so a precommit inside a round is answered 'disabled' by the model.",
   note=TB + " Modelled rather than verified: ideal (injective) Alh, one cell per record (byte-level tearing only as 'torn cell'), the two volatile levels "
        "(buffered / written) merged, committers serialised in the model, hash tree (aht) and index (tbtree) recovery are NOT in the Lean model (covered by the "
        "crash-image enumeration + oracle only: that is where 3 of the 4 findings are), preallocated files and compressed value logs not covered, "
@@ -220,19 +273,20 @@ CHECKS = {
  "C16": dict(
   text="Go slice semantics are modelled explicitly (outcome = value | error class | PANIC, plus an allocation observable) and the binary decoders of "
        "embedded/store (TxMetadata.ReadFrom and attribute deserialisers, KVMetadata.unsafeReadFrom, TxHeader.ReadFrom, valueRefFrom, the framing part of "
-       "ReplicateTx), embedded/appendable (Metadata.ReadFrom/readField over bufio) and embedded/sql (DecodeValueLength/DecodeValue) are transliterated "
-       "statement by statement. Lean theorems for EVERY byte string: never-panics for the code as it stands (KVMetadata, SQL value decoders, attribute "
-       "deserialisers and, since the repairs of extraAttribute.deserialize / TxHeader.ReadFrom / ReplicateTx in /repo, TxMetadata.ReadFrom, TxHeader.ReadFrom, "
-       "valueRefFrom and the ReplicateTx framing: the former panic witnesses are restated as rejected inputs together with *_guard_needed theorems - the model "
-       "without the guard panics on exactly that input - and each is replayed on the real code); what ReadFrom accepts can be serialised again and accepted headers "
-       "carry complete Eh/BlTxID/BlRoot; where the current code still panics (appendable.Metadata.ReadFrom) a concrete witness theorem (known finding), the "
-       "theorem that the code with the missing guard never panics, and the `_partial` theorem that the code as it is either equals the guarded code or panics "
-       "exactly where the guard would return an error; allocation bounds from length fields (and an unboundedness witness for appendable.readField); loop bounds "
+       "ReplicateTx), embedded/appendable (Metadata.ReadFrom/readField over bufio, as repaired: io.ReadFull + io.ReadAll(io.LimitReader)) and embedded/sql (DecodeValueLength/DecodeValue) are transliterated "
+       "statement by statement. Lean theorems for EVERY byte string: never-panics for the code as it stands - every modelled decoder (KVMetadata, SQL value decoders, attribute "
+       "deserialisers and, since the repairs of extraAttribute.deserialize / TxHeader.ReadFrom / ReplicateTx / appendable.Metadata.ReadFrom+readField in /repo, TxMetadata.ReadFrom, "
+       "TxHeader.ReadFrom, valueRefFrom, the ReplicateTx framing and appendable.Metadata.ReadFrom: the former panic witnesses are restated as rejected inputs together with "
+       "*_guard_needed / *_guard_necessary theorems - the model without the guard panics on exactly that input, and for appendable metadata the unguarded code differs from the guarded "
+       "one ONLY by panicking where the guard returns an error - and each is replayed on the real code); what ReadFrom accepts can be serialised again and accepted headers "
+       "carry complete Eh/BlTxID/BlRoot; for every flag set the guarded code never panics (*_fixed_noPanic); allocation bounds from length fields (appendable.Metadata.ReadFrom never "
+       "holds more bytes than the input has, whatever lengths and count it declares: the former unboundedness witness ff ff ff ff is now io.ErrUnexpectedEOF with 0 bytes allocated); loop bounds "
        "never reached (termination); ReplicateTx touches the store only after the whole input parsed. Tie: every decoder is called on valid encodings built "
        "by the repo's own encoders/real stores and on a structure-aware mutation stream; outcome class and decoded fields are compared with the model line by line.",
   note=TB + " Modelled rather than verified: the decoders' callers beyond the framing (precommit is a parameter of the ReplicateTx model), json.Unmarshal, "
        "bufio/bytes.Buffer semantics (modelled from their source), cap>len slices (inputs are passed with cap=len). Search-only (no model, labelled search-only "
-       "in the evidence): SQL text parser, pgsql frontend messages, pkg/stream receivers/parsers, singleapp.Open header; bounded time is argued by the loop "
+       "in the evidence): SQL text parser, pgsql frontend messages, pkg/stream receivers/parsers, singleapp.Open header (their 7 panics/allocations found by the search are repaired "
+       "in /repo; the signatures stay armed); bounded time is argued by the loop "
        "measure, memory by the allocation observable and a process-wide heap counter with a 48 MiB noise floor. Attribute deserialisers are reached only through "
        "ReadFrom (go:linkname to methods of unexported types breaks Go type identity).",
   technique="Lean 4 proof over a Go-slice DSL (panic as an outcome) + differential correspondence and panic/hang/allocation oracle against the real decoders under recover()",
